@@ -255,11 +255,20 @@ def ref_outcome(specs):
     return ("ok", refacl.ref_filter(merged_lvl, union, PREFIX))
 
 
+BASE_INDENT = {"all": 8, "a-block": 12, "a-block-del": 8, "a-any": 4, "b-only": 12, "leafs": 8, "leafs-cd": 12, "empty": 0}
+
+
+def indent_text(text, n):
+    return "\n" + "\n".join(" " * n + ln for ln in text.split("\n")) + "\n" + " " * max(0, n - 4)
+
+
 def judge(specs, report):
     """specs: [(prog, acl_name)]"""
     acls = dict(acl_list())
     rs = [(p, acls[a]()) for p, a in specs]
-    real = run_real([(p, refacl.text(r) + "\n") for p, r in rs])
+    # generators return their ACL as an indented triple-quoted literal; the base indentation differs between
+    # generators (method level, inside an `if`, ...) and must not matter
+    real = run_real([(p, indent_text(refacl.text(r), BASE_INDENT.get(a, 8)) + "\n") for (p, r), (_, a) in zip(rs, specs)])
     ref = ref_outcome(rs)
     case = {"specs": [[p, a] for p, a in specs]}
     if real[0] != ref[0]:
